@@ -316,6 +316,24 @@ func (b *ByteSlice) DelItem(key Object) *Error {
 }
 
 func (b *ByteSlice) Contains(obj Object) *Bool {
+	// Iterating over the slice yields its bytes: a byte is a member when it
+	// occurs, and so is a number that is equal to one that does
+	switch obj := obj.(type) {
+	case *Byte:
+		return NewBool(bytes.IndexByte(b.value, obj.value) >= 0)
+	case *Int:
+		if obj.value < 0 || obj.value > math.MaxUint8 {
+			return False
+		}
+		return NewBool(bytes.IndexByte(b.value, byte(obj.value)) >= 0)
+	case *Float:
+		for _, item := range b.value {
+			if float64(item) == obj.value {
+				return True
+			}
+		}
+		return False
+	}
 	data, err := AsBytes(obj)
 	if err != nil {
 		return False
